@@ -36,6 +36,8 @@ def _net(c):
 
 
 def _tree(c):
+    if c.get("_tree_obj") is not None:
+        return c["_tree_obj"]
     inputs, output, size_dict = _net(c)
     t = ctg.ContractionTree.from_path(inputs, output, size_dict, ssa_path=[tuple(p) for p in c["ssa_path"]])
     for ix in c.get("pre_sliced", []):
@@ -55,6 +57,19 @@ def _pool(c, env, clk):
 
 
 def run_one(c, env, clk):
+    """Seeded op; with c['twice'] the same call is issued twice on the SAME (warmed) object: both
+    results are returned and must be equal ('regardless of what was called before')."""
+    if c.get("twice"):
+        t = _tree(c)
+        w = c.get("warm")
+        if w:
+            t.subtree_reconfigure_(subtree_size=w["subtree_size"], maxiter=w["maxiter"], seed=w["seed"], select="random")
+        c2 = dict(c)
+        c2.pop("twice")
+        c2["_tree_obj"] = t
+        r1 = run_one(c2, env, clk)
+        r2 = run_one(c2, env, clk)
+        return {"first": r1, "second": r2, "same": canon(r1) == canon(r2)}
     api = c["api"]
     a = c.get("args", {})
     s = c["seed"]
